@@ -1304,6 +1304,12 @@ where
                 })
             })
             .and_then(|size: usize| {
+                if size == 0 {
+                    // An empty element (e.g. an empty string). `read_n_bytes` must not be
+                    // asked for it: on an exhausted slice - the element is the last one -
+                    // it answers `None`, which would be read as a null element.
+                    return Ok(Some(FrameSlice::new_empty()));
+                }
                 self.slice.read_n_bytes(size).map_err(|err| {
                     mk_deser_err::<Self>(
                         self.collection_type,
